@@ -832,6 +832,13 @@ where
             break;
         }
         if let Some((fid, t)) = locked.pop_front() {
+            // wait_all may have left us without a token (the top-level
+            // self-check gives it up).  Get one back before we use it to
+            // build t or give it up while waiting for t's lock.  We hold no
+            // locks at this point, so waiting for a token is safe.
+            if !server.has_token() {
+                server.ensure_token_or_cheat(t.as_str(), &mut cheat).await?;
+            }
             // TODO(soon): check_sane
             let mut lock = ps_ref.borrow().new_lock(fid);
             let mut backoff = Duration::from_millis(100);
